@@ -1,6 +1,6 @@
 #!/usr/bin/env python3
 """Seeded-change bookkeeping.
-  seeded.py import <worktree> <PROP>      verify every <worktree>/_mut/<k> in a scratch worktree of /repo HEAD (patch applies,
+  seeded.py import <worktree> <PROP> [offset]  verify every <worktree>/_mut/<k> in a scratch worktree of /repo HEAD (patch applies,
                                          baseline 130/130, demo fails with / passes without) and copy it to /verif/seeded/<PROP>-<k>/
   seeded.py run <seed-id>|all [PROP ...]  apply the patch to /repo, run ./check <PROP> --tier quick for the listed properties
                                          (default: the property the seed targets), undo, record the outcome in meta.json
@@ -29,13 +29,13 @@ def drop_scratch():
     sh("git -C /repo worktree prune")
 
 
-def do_import(wt, prop):
+def do_import(wt, prop, offset=0):
     mut = os.path.join(wt, "_mut")
     for k in sorted(os.listdir(mut)):
         d = os.path.join(mut, k)
         if not os.path.exists(os.path.join(d, "patch.diff")):
             continue
-        sid = f"{prop}-{k}"
+        sid = f"{prop}-{int(k) + offset}"
         scratch()
         rec = dict(id=sid, property=prop, source=f"sub-agent working in {wt} with only the property text", steps=[])
         rc, out = sh(f"git apply --check {d}/patch.diff && git apply {d}/patch.diff", cwd=SCR)
@@ -110,7 +110,7 @@ def do_run(sid, props):
 
 if __name__ == "__main__":
     if sys.argv[1] == "import":
-        do_import(sys.argv[2], sys.argv[3])
+        do_import(sys.argv[2], sys.argv[3], int(sys.argv[4]) if len(sys.argv) > 4 else 0)
     elif sys.argv[1] == "run":
         ids = sorted(os.listdir(os.path.join(V, "seeded"))) if sys.argv[2] == "all" else [sys.argv[2]]
         for i in ids:
